@@ -231,10 +231,19 @@ pub fn check(cx: &Cx, rep: &mut Report) {
         if ops.is_empty() {
             continue;
         }
-        // terminations of instances, as instantaneous events
+        // terminations of instances: L1 = the instant the loop task ended; L2 (no task events) = some moment
+        // after stopped() began / the fault was injected
         for (i, obj) in inst.iter().enumerate() {
             if let Some(t) = task_of_obj.get(obj) {
-                if let Some((s, _, _)) = ix.task_end.get(t) {
+                if cx.mt {
+                    let t_in = ix.cbs.iter().filter(|c| c.actor == *t && c.cb == Cb::Stopped).map(|c| c.i).min();
+                    let fault = ix.faults.iter().filter(|f| ix.ev[f.0 as usize].task == *t).map(|f| f.0).min();
+                    if let Some(b) = [t_in, fault].into_iter().flatten().min() {
+                        if b < settled {
+                            ops.push(HOp { b, e: u64::MAX, k: Kind::Term { i }, desc: format!("termination of instance obj {obj} (some time after #{b})") });
+                        }
+                    }
+                } else if let Some((s, _, _)) = ix.task_end.get(t) {
                     if *s < settled {
                         ops.push(HOp { b: *s, e: *s, k: Kind::Term { i }, desc: format!("termination of instance obj {obj}") });
                     }
